@@ -27,6 +27,6 @@ CHECKS = [
     Check("greedy_sim", sim_execute([J.judge_c03], J.nontrivial_c03), strategy=clock_worlds, budget={"quick": 2500, "thorough": 50000}),
     Check("planner_sim", sim_execute([J.judge_c03], J.nontrivial_c03, planner=True, max_steps=1500), strategy=lambda tier: specs.planner_worlds(contention=True),
           budget={"quick": 128, "thorough": 4000}),
-    Check("scripted_sim", sim_execute([J.judge_c03], J.nontrivial_c03, max_steps=1500), strategy=lambda tier: specs.scripted_worlds(contention=True, max_runtime=4),
+    Check("scripted_sim", sim_execute([J.judge_c03], J.nontrivial_c03, max_steps=1500), strategy=lambda tier: specs.scripted_worlds(contention=True, max_runtime=4, zero_runtime=True),
           budget={"quick": 600, "thorough": 30000}),
 ]
